@@ -194,6 +194,8 @@ struct Reg {
     /// instead of looking the service up, the client registers a new instance through the
     /// builder's register() terminal - which must see that the old one is gone
     register_again: bool,
+    /// instead: `setup()` after the un-awaited termination - it brings a fresh instance up
+    via_setup: bool,
 }
 
 impl Scene for Reg {
@@ -231,7 +233,21 @@ impl Scene for Reg {
             Cause::StartErr | Cause::StartPanic => vec![],
         };
         exec.spawn_client(0, run_client(0, Handles::with_addr(addr), t_ops));
-        if self.register_again {
+        if self.via_setup {
+            exec.spawn_client(6, async {
+                use futures::FutureExt as _;
+                let mut held: Option<hannibal::Addr<crate::world::Probe<0>>> = None;
+                crate::world::log(crate::world::Ev::Begin { c: 6, i: 0 });
+                crate::world::sleep(8).await;
+                crate::world::log(crate::world::Ev::End { c: 6, i: 0, r: Res::Ok });
+                for (k, op) in [crate::props::c08::ROp::Setup, crate::props::c08::ROp::AlreadyRunning, crate::props::c08::ROp::TryFromRegistry].iter().enumerate() {
+                    let i = k as u16 + 1;
+                    crate::world::log(crate::world::Ev::Begin { c: 6, i });
+                    let r = std::panic::AssertUnwindSafe(crate::props::c08::reg_op::<0>(&mut held, *op)).catch_unwind().await.unwrap_or(Res::Panicked);
+                    crate::world::log(crate::world::Ev::End { c: 6, i, r });
+                }
+            });
+        } else if self.register_again {
             exec.spawn_client(6, async {
                 use futures::FutureExt as _;
                 let mut held: Option<hannibal::Addr<crate::world::Probe<0>>> = None;
@@ -260,6 +276,16 @@ impl Scene for Reg {
         }
         crate::check::oblige("dependants-react");
         let r = |i: u16| an.op(6, i).and_then(|o| o.res);
+        if self.via_setup {
+            if let (Some(s), Some(ar), Some(tf)) = (r(1), r(2), r(3)) {
+                let fresh = an.enters.iter().find(|e| e.a == 4 && e.cb == crate::world::Cb::Started).map(|e| e.inst);
+                let ok = s == Res::Ok && ar == Res::OptBool(Some(true)) && matches!(tf, Res::Reg { present: true, ident: Some(i) } if Some(i) == fresh);
+                if !ok {
+                    out.push(Violation { clause: "dependants-react", key: format!("C14/setup-did-not-bring-the-service-up/cause={ck}"), detail: format!("after an un-awaited termination: setup() -> {s:?}, already_running -> {ar:?}, try_from_registry -> {tf:?} (fresh instance: {fresh:?})") });
+                }
+            }
+            return out;
+        }
         if self.register_again {
             if let Some(res) = r(1) {
                 if !matches!(res, Res::Registered { replaced: true, .. }) {
@@ -335,13 +361,19 @@ fn base_cases(tier: Tier) -> Vec<Case> {
                 desc: format!("dependants cause={cause:?}"),
                 exec: ExecCfg { horizon: 30, cancel: if let Cause::Cancel(j) = cause { Some((0, j)) } else { None }, ..ExecCfg::default() },
                 bound: None,
-                scene: Box::new(Reg { cause, register_again: false }),
+                scene: Box::new(Reg { cause, register_again: false, via_setup: false }),
             });
             v.push(Case {
                 desc: format!("dependants [a new instance is registered through the builder] cause={cause:?}"),
                 exec: ExecCfg { horizon: 30, cancel: if let Cause::Cancel(j) = cause { Some((0, j)) } else { None }, ..ExecCfg::default() },
                 bound: None,
-                scene: Box::new(Reg { cause, register_again: true }),
+                scene: Box::new(Reg { cause, register_again: true, via_setup: false }),
+            });
+            v.push(Case {
+                desc: format!("dependants [setup() after the termination] cause={cause:?}"),
+                exec: ExecCfg { horizon: 30, cancel: if let Cause::Cancel(j) = cause { Some((0, j)) } else { None }, ..ExecCfg::default() },
+                bound: None,
+                scene: Box::new(Reg { cause, register_again: false, via_setup: true }),
             });
         }
         for awaiting in [Awaiting::Nobody, Awaiting::Await, Awaiting::PollOnce] {
